@@ -21,32 +21,44 @@ from ..oracles import ctf_sets as S
 from ..oracles import ctf_fscm as F
 
 PROP = "C19"
-RULE = ("random ADMGs (1-6 nodes, acyclic; isolated and bidirected-only nodes) x counterfactual variables with 0-3 "
-        "subscripts drawn from ancestors, non-ancestors, the variable itself and (rarely) both values of one name x events "
-        "of 1-4 items with repeated variables, conflicting values and None values; one stream per anchored function "
-        "(minimize, minimize_event, simplify, ancestors, ancestral components from sets / from roots, ctf-factor form, "
-        "factors, conversion, factorisation, simplify-then-factorise) plus a malformed stream (names outside the graph, "
-        "Intervention objects, value marks).  A case is non-trivial when the graph has >=3 nodes and a directed edge and "
-        "the argument mentions at least one subscript (for component cases: at least two input sets).")
+RULE = ("structured families first: (1) chains of length 3-4 with every set of shortcut edges and at most one bidirected edge x "
+        "every variable Y_S with S a set of earlier vertices (nested subscripts: one intervened vertex reaches Y only through "
+        "another) through ancestors / minimize / ancestral components / factorisation; (2) a subscript that fixes a direct "
+        "parent to the STARRED value (Y @ +X, X -> Y) through conversion, ctf-factor test, both grouping functions, "
+        "factorisation; (3) conditioned variables (ancestors of a root, the root itself, variables with causally irrelevant "
+        "subscripts, non-ancestors) through get_ancestral_components and its two helpers.  Then random ADMGs (1-6 nodes, "
+        "acyclic; isolated and bidirected-only nodes) x counterfactual variables with 0-3 subscripts drawn from ancestors, "
+        "non-ancestors, the variable itself and (rarely) both values of one name x events of 1-4 items with repeated "
+        "variables, conflicting values and None values; one stream per anchored function (minimize, minimize_event, simplify, "
+        "ancestors, the two merge passes separately and composed, conditioned variables in an ancestral set, ancestral set "
+        "after conditioning, ancestral components, ctf-factor form, factors, conversion, factorisation, "
+        "simplify-then-factorise, the three query classes Lean vs Python, the two specification evaluators Lean vs Python) plus a malformed stream (names outside the graph, "
+        "Intervention objects, value marks).  A case is non-trivial when the graph has >=3 nodes and a directed edge and the "
+        "argument mentions at least one subscript (for component cases: at least two input sets).")
 ASSUMPTIONS = [
-    "OPEN simplify_prob / simplify_none_zero (all events): FALSE for the code on events with a self-intervened variable Y_y (open findings simplify-reflexive:prob/none); proved as simplify_prob_partial / simplify_none_zero_partial for every event without a self-intervened variable whose values are values of the variable they are bound to, all compatible functional SCMs, all readings of the value symbols",
-    "OPEN factorisation_den (the factorised sum-product equals P(query)): no theorem; decided by the exact functional-SCM oracle only; FALSE for the code on three syntactic classes of queries (open findings factorisation-value:multi-world / literal-bound / outcome-parent-value); factorisation_shape (D*, ctf-factor forms, grouping by c-components) is proved",
-    "value symbols: '-N' and '+N' are read as two DISTINCT values of N (theorems: for every such reading; oracle: sampled readings); an event value None means 'no constraint'",
+    "OPEN simplify_prob / simplify_none_zero (all events): FALSE for the code on events with a self-intervened variable Y_y (open findings simplify-reflexive:prob/none: y0 and the pinned test test_simplify_y read Y_y as the variable Y, the paper's Algorithm 1 and y0's ID* remove the tautology Y_y = y); proved as simplify_prob_partial / simplify_none_zero_partial for every event without a self-intervened variable whose values are values of the variable they are bound to, all compatible functional SCMs, all distinct readings of the value symbols",
+    "simplify_prob_y0reading / simplify_none_zero_y0reading: for ALL events (self-intervened variables included; one subscript per name, values name their variable) SIMPLIFY is exactly right RELATIVE TO y0's reading y0Read of Spec/CtfSem.lean ('Y_{..y..} = y' is the event 'Y = y', 'Y_{..y..} = y'' is impossible); this does not close the finding - the reading itself contradicts the paper - it shows the reading is the whole deviation; the harness' finding key uses the same rewrite (_explained_by_reflexive_rewrite)",
+    "OPEN factorisation_den (the factorised sum-product equals P(query), ALL queries): FALSE for the code on three syntactic classes of queries (open findings factorisation-value:multi-world / literal-bound / outcome-parent-value). PROVED as factorisation_den_partial for every query OUTSIDE the three classes (decidable predicates multiWorld / literalBound / outcomeParentValue of Model/CtfFactor.lean, cross-checked against the Python key functions on every run by the op factorize_classes) that is readable (no self-intervened variable, one value per subscript name), every compatible functional SCM whose pmfs sum to one and whose mechanisms take values below card, every reading of the value symbols; the counterfactual split lemma (independent noise blocks), marginalisation and composition are mechanised, not assumed",
+    "value symbols: '-N' and '+N' are read as two values of N (SIMPLIFY theorems: for every DISTINCT reading; value theorem of the factorisation: for every reading; oracle: sampled distinct readings); an event value None means 'no constraint'",
     "Def. 2.1 is read without the '\\ X' for the variable itself (the text says An(Y_x) 'includes Y itself'); for Y not in X both readings coincide",
-    "Def. 4.2 'not disjoint' is read on graph vertices (two sets containing W_z and W_z' share the vertex W), as in the proof of Lemma A.5 and in y0's docstring",
+    "Def. 4.2 'not disjoint' is read on graph vertices (two sets containing W_z and W_z' share the vertex W), as in the proof of Lemma A.5 and in y0's docstring; X_*(W_t) = V(||X_*|| ∩ An(W_t)) is read as y0's docstring reads it (graph vertices, intersection by == of the variable objects)",
+    "cond_in_ancestral_set_spec: completeness (every minimised conditioned variable that == a member of An(W_t) is found) is proved for subscript lists in the canonical Iv.lt order of the line protocol, in which == of two frozensets is structural equality of the model's lists; soundness is unconditional",
     "is_counterfactual_factor_form: Def. 3.4 asks for subscripts equal to pa_W; y0 accepts supersets of pa_W (the same random variable); theorem factor_form_spec characterises what y0 accepts, the oracle has no opinion on strict supersets",
-    "factorised expression: a '-N' subscript whose name is bound by the enclosing Sum denotes the bound value, every other subscript its literal value; a factor variable that is neither bound nor given a value by the returned event is unconstrained",
-    "semantic theorems are over Spec/Fscm.lean (cf family): finitely many independent exogenous variables, deterministic mechanisms, evaluation along a topological order; the oracle samples binary/ternary variables, one binary latent per bidirected edge, private binary noise",
-    "the two merge passes are modelled as 'unions of connected components of the link graph' (the depth-first traversal order, which depends on Python set iteration, is abstracted); the second pass is modelled under the invariant 'input sets are disjoint on graph vertices', proved for the output of the first pass (mergeCommon_base_disjoint)",
+    "SPEC cross-check (op sem_values): on sampled functional SCMs the Lean specification functions probEventOpt and factorisedValue (Spec/CtfSem.lean, evaluated by the driver on the transferred model) return exactly the rationals the Python oracle computes (prob_event, eval_factorised), inside and outside the three classes; this validates that factorisation_den_partial speaks about the quantity the oracle judges, it is sampling, not proof",
+    "factorised expression (Spec/CtfSem.lean factorisedValue = oracle eval_factorised): a '-N' subscript whose name is bound by the enclosing Sum denotes the bound value, every other subscript its literal value; a factor variable that is neither bound nor given a value by the returned event is unconstrained; Sum ranges over the values below card",
+    "semantic theorems are over Spec/Fscm.lean (cf family): finitely many independent exogenous variables, deterministic mechanisms, evaluation along a topological order; Compatible only asks that the mechanisms read parents of G and share noise only across bidirected edges of G; the oracle samples binary/ternary variables, one binary latent per bidirected edge, private binary noise",
+    "the two merge passes are modelled as 'unions of connected components of the link graph' (the depth-first traversal order, which depends on Python set iteration, is abstracted); the second pass is modelled under the invariant 'input sets are non-empty and disjoint on graph vertices', proved for the output of the first pass (mergeCommon_base_disjoint) and imposed on the generator of the stand-alone op merge_bidirected (other inputs are compared as 'unspecified')",
     "Product.safe's ordering of the factors and the order of the returned event are compared as multisets (ordering is property C11's business)",
     "SIMPLIFY's TypeError on events that mix None with self-intervened variables is treated as a documented input rejection (no opinion); exceptions on names outside the graph are compared by category only",
-    "generated graphs are acyclic ADMGs (the property quantifies over ADMGs); cyclic graphs are not explored",
+    "generated graphs are acyclic ADMGs (the property quantifies over ADMGs); cyclic graphs are not explored (the value theorem itself does not assume acyclicity of G: a self-loop on a member of An(Y_*) makes get_counterfactual_factors reject the query)",
 ]
 EXHAUSTIVE = {"quick": False, "thorough": False}
-LEANCHECK_MODULES = ["Y0.Model.Ctf", "Y0.Model.CtfSimplify", "Y0.Model.CtfFactor", "Y0.Props.C19"]
+ESCALATED_TIER = "escalated"   # generator budget of a quick run when an anchored source file changed (about twice the quick stream, all structured families)
+LEANCHECK_MODULES = ["Y0.Model.Ctf", "Y0.Model.CtfSimplify", "Y0.Model.CtfFactor", "Y0.Spec.CtfSem", "Y0.Props.C19"]
 
 OPS = ["minimize", "minimize_event", "simplify", "ancestors", "components_from_sets", "ancestral_components",
-       "is_factor_form", "factors", "factors_values", "convert", "factorize", "simplify_factorize"]
+       "is_factor_form", "factors", "factors_values", "convert", "factorize", "simplify_factorize", "factorize_classes",
+       "cond_in_ancestral_set", "ancestral_set_after", "merge_common", "merge_bidirected", "sem_values"]
 
 
 # ------------------------------------------------------------------------------------------ encoding helpers
@@ -227,18 +239,168 @@ def _graph(rng, nmax=6):
     return G.rand_graph(rng, n, n, acyclic=True)
 
 
+# ---- structured families (deterministic enumeration; `rng` only picks values / companions) ----------------------
+
+def _chain_graphs():
+    """chains 0->1->..->L-1 (L = 3, 4) with every set of shortcut edges and at most one bidirected edge"""
+    out = []
+    for L in (3, 4):
+        base = [[i, i + 1] for i in range(L - 1)]
+        shortcuts = [[i, j] for i in range(L) for j in range(i + 2, L)]
+        pairs = [[i, j] for i in range(L) for j in range(i + 1, L)]
+        for mask in range(1 << len(shortcuts)):
+            di = base + [e for k, e in enumerate(shortcuts) if mask >> k & 1]
+            for bi in [[]] + [[e] for e in pairs]:
+                out.append({"nodes": [], "di": di, "bi": bi})
+    return out
+
+
+def _subsets(xs, kmin=1):
+    for mask in range(1, 1 << len(xs)):
+        sub = [x for k, x in enumerate(xs) if mask >> k & 1]
+        if len(sub) >= kmin:
+            yield sub
+
+
+def structured_nested(rng, models):
+    """nested subscripts: Y_{x,z,..} on chains where one intervened variable reaches Y (or an ancestor of Y) only
+    through another; one case per (graph, variable, subscript set) and function that looks at An(.)_{G_bar X}"""
+    out = []
+    for g in _chain_graphs():
+        L = len(S.all_nodes(g))
+        for y in range(2, L):
+            for sub in _subsets(list(range(y)), 1):
+                ivs = [[a, "p" if rng.random() < 0.2 else "m"] for a in sub]
+                v = V(y, ivs)
+                seed = rng.randrange(1 << 30)
+                out.append({"op": "ancestors", "g": g, "v": v, "seed": seed, "models": 0})
+                out.append({"op": "minimize", "g": g, "v": v, "seed": seed, "models": models if len(sub) >= 2 else 0})
+                if len(sub) >= 2:
+                    other = V(rng.choice([a for a in range(L) if a != y]))
+                    roots = [v, other]
+                    cond = [other] if rng.random() < 0.5 else []
+                    out.append({"op": "ancestral_components", "g": g, "roots": roots, "cond": cond, "seed": seed, "models": 0})
+                    out.append({"op": "ancestral_set_after", "g": g, "v": v, "cond": [V(a) for a in range(y) if a not in sub][:1],
+                                "seed": seed, "models": 0})
+                    q = [[v, val(y, "p" if rng.random() < 0.3 else "m")]]
+                    out.append({"op": "factorize", "g": g, "e": q, "seed": seed, "models": models})
+                    if rng.random() < 0.5:
+                        z = rng.choice([a for a in range(L) if a != y])
+                        q2 = q + [[V(z, [iv for iv in ivs if iv[0] < z and rng.random() < 0.7]), val(z)]]
+                        out.append({"op": rng.choice(["factorize", "simplify_factorize"]), "g": g, "e": q2, "seed": seed,
+                                    "models": models})
+    return out
+
+
+def structured_starred_parent(rng, models, n_graphs):
+    """a subscript that fixes a direct parent to the STARRED value (Y @ +X with X -> Y), through every ctf-factor
+    function: conversion, ctf-factor test, grouping (with and without values), factorisation"""
+    out = []
+    for _ in range(n_graphs):
+        g = _scm_graph(rng, 5)
+        if not g["di"]:
+            continue
+        nodes = G.all_nodes(g)
+        x, y = rng.choice(g["di"])
+        pa = sorted(S.parents(g, y))
+        ivs = [[x, "p"]]
+        for p in pa:
+            if p != x and rng.random() < 0.5:
+                ivs.append([p, "p" if rng.random() < 0.5 else "m"])
+        others = [a for a in nodes if a != y and a not in pa]
+        if others and rng.random() < 0.3:
+            ivs.append([rng.choice(others), "m"])
+        v = V(y, ivs)
+        seed = rng.randrange(1 << 30)
+        item = [v, val(y, "p" if rng.random() < 0.4 else "m")]
+        ev = [item]
+        for _k in range(rng.randint(0, 2)):
+            w = rand_var(rng, g, nodes, kmax=2, star_plain=1.0, p_both=0.0)
+            ev.append([w, rand_value(rng, w, p_none=0.05)])
+        out.append({"op": "convert", "g": g, "e": ev, "seed": seed, "models": 0})
+        cv = [S_convert(g, w) for w, _ in ev]       # in ctf-factor form, +X kept
+        out.append({"op": "is_factor_form", "g": g, "vs": cv, "seed": seed, "models": 0})
+        out.append({"op": "factors", "g": g, "vs": cv, "seed": seed, "models": 0})
+        out.append({"op": "factors_values", "g": g, "e": [[S_convert(g, w), x_] for w, x_ in ev], "seed": seed, "models": 0})
+        out.append({"op": "factorize", "g": g, "e": [item], "seed": seed, "models": models})
+        out.append({"op": rng.choice(["factorize", "simplify_factorize", "factorize_classes"]), "g": g, "e": ev[:2],
+                    "seed": seed, "models": models})
+    return out
+
+
+def structured_conditioned(rng, n_graphs):
+    """conditioned variables for get_ancestral_components and its helpers: the conditioned set contains ancestors of a
+    root (whose outgoing edges are then cut), the root itself, variables with a causally irrelevant subscript (which
+    only match a member of An(W_t) after minimisation) and variables outside An(W_t)"""
+    out = []
+    graphs = _chain_graphs()
+    for k in range(n_graphs):
+        g = graphs[k % len(graphs)] if k % 3 == 0 else _graph(rng)
+        nodes = G.all_nodes(g)
+        if len(nodes) < 2 or not g["di"]:
+            continue
+        x, y = rng.choice(g["di"])
+        anc = sorted(S.anc(g, {y}))
+        non_anc = [a for a in nodes if a not in anc]
+        sub = [[a, "m"] for a in anc if a != y and rng.random() < 0.3]
+        root = V(y, sub)
+        cond = []
+        for a in anc:
+            if rng.random() < 0.5:
+                extra = [[b, "m"] for b in non_anc if rng.random() < 0.4 and b != a]   # irrelevant subscripts
+                inherited = [iv for iv in sub if iv[0] != a and rng.random() < 0.6]
+                cond.append(V(a, inherited + extra))
+        if non_anc and rng.random() < 0.3:
+            cond.append(V(rng.choice(non_anc)))
+        seed = rng.randrange(1 << 30)
+        roots = [root] + [c for c in cond if rng.random() < 0.7]
+        if rng.random() < 0.5:
+            roots.append(rand_var(rng, g, nodes, kmax=2, p_both=0.0, star_plain=1.0))
+        out.append({"op": "ancestral_components", "g": g, "roots": roots, "cond": cond, "seed": seed, "models": 0})
+        out.append({"op": "cond_in_ancestral_set", "g": g, "v": root, "cond": cond, "seed": seed, "models": 0})
+        out.append({"op": "ancestral_set_after", "g": g, "v": root, "cond": cond, "seed": seed, "models": 0})
+    return out
+
+
+def _rand_sets(rng, g, nodes, malformed=False, disjoint=False):
+    k = rng.randint(0, 4)
+    sets = []
+    for _ in range(k):
+        sets.append([rand_var(rng, g, nodes, kmax=2, p_both=0.0) for _ in range(rng.randint(0 if malformed else 1, 3))])
+    if sets and rng.random() < 0.3:
+        sets.append(list(rng.choice(sets)))
+    if disjoint:     # every graph vertex in at most one (distinct) set
+        owner, keep = {}, []
+        for s in sets:
+            s2 = [v for v in s if owner.setdefault(S.name(v), len(keep)) == len(keep)]
+            if s2:
+                keep.append(s2)
+        sets = keep
+        if sets and rng.random() < 0.2:
+            sets.append(list(rng.choice(sets)))
+    return sets
+
+
 def cases(rng: random.Random, tier: str):
     out = load_corpus()
     quick = tier != "thorough"
-    n_set = 30000 if quick else 120000     # set-valued / structural streams
-    n_sem = 28000 if quick else 100000     # streams evaluated on functional SCMs
+    n_set = 22000 if quick else 120000     # set-valued / structural streams (random)
+    n_sem = 18000 if quick else 100000     # streams evaluated on functional SCMs (random)
+    if tier == "escalated":
+        n_set, n_sem = 45000, 36000
     models = 3 if quick else 4
-    weights = [("minimize", 3), ("minimize_event", 1), ("ancestors", 4), ("components_from_sets", 3),
-               ("ancestral_components", 4), ("is_factor_form", 2), ("factors", 2), ("factors_values", 1), ("convert", 2)]
+    # structured families first: they hit the nesting / starred-parent / conditioned-variable branches by construction
+    out += structured_nested(rng, 2)
+    out += structured_starred_parent(rng, 2, 350 if tier == "quick" else 1500)
+    out += structured_conditioned(rng, 700 if tier == "quick" else 3000)
+    weights = [("minimize", 3), ("minimize_event", 1), ("ancestors", 4), ("components_from_sets", 2),
+               ("ancestral_components", 4), ("is_factor_form", 2), ("factors", 2), ("factors_values", 1), ("convert", 2),
+               ("factorize_classes", 3), ("cond_in_ancestral_set", 1), ("ancestral_set_after", 2), ("merge_common", 1),
+               ("merge_bidirected", 1)]
     ops = [o for o, w in weights for _ in range(w)]
     for _ in range(n_set):
         op = rng.choice(ops)
-        malformed = rng.random() < 0.12
+        malformed = rng.random() < 0.12 and op != "factorize_classes"
         g = _graph(rng)
         nodes = G.all_nodes(g)
         c = {"op": op, "g": g, "seed": rng.randrange(1 << 30), "models": 0, "malformed": malformed}
@@ -250,20 +412,21 @@ def cases(rng: random.Random, tier: str):
             c["e"] = rand_event(rng, g, nodes, malformed=malformed)
             if op == "factors_values" and rng.random() < 0.7:
                 c["e"] = [[S_convert(g, v), x] if S.name(v) in nodes else [v, x] for v, x in c["e"]]
-        elif op == "components_from_sets":
-            k = rng.randint(0, 4)
-            sets = []
-            for _ in range(k):
-                sets.append([rand_var(rng, g, nodes, kmax=2, p_both=0.0) for _ in range(rng.randint(0 if malformed else 1, 3))])
-            if sets and rng.random() < 0.3:
-                sets.append(list(rng.choice(sets)))
-            c["sets"] = sets
-        elif op == "ancestral_components":
+        elif op == "factorize_classes":
+            c["e"] = rand_event(rng, g, nodes, nmax=3, p_none=0.1, kmax=2)
+        elif op in ("components_from_sets", "merge_common"):
+            c["sets"] = _rand_sets(rng, g, nodes, malformed)
+        elif op == "merge_bidirected":
+            c["sets"] = _rand_sets(rng, g, nodes, False, disjoint=rng.random() < 0.9)
+        elif op in ("ancestral_components", "cond_in_ancestral_set", "ancestral_set_after"):
             roots = [rand_var(rng, g, nodes, kmax=2, p_outside=pout, p_both=0.0, star_plain=1.0) for _ in range(rng.randint(1, 3))]
             cond = [r for r in roots if rng.random() < 0.4]
-            if rng.random() < 0.2:
+            if rng.random() < 0.35:
                 cond.append(rand_var(rng, g, nodes, kmax=2, p_both=0.0, star_plain=1.0))
-            c["roots"], c["cond"] = roots, cond
+            if op == "ancestral_components":
+                c["roots"], c["cond"] = roots, cond
+            else:
+                c["v"], c["cond"] = roots[0], cond[::-1] + [V(a) for a in nodes if rng.random() < 0.25]
         elif op in ("is_factor_form", "factors"):
             vs = [rand_var(rng, g, nodes, kmax=3, p_outside=pout, p_both=0.02) for _ in range(rng.randint(0, 4))]
             r = rng.random()
@@ -276,13 +439,14 @@ def cases(rng: random.Random, tier: str):
                         vs[i] = V(S.name(vs[i]), vs[i][4] + [[rng.choice(extra), "m"]])
             c["vs"] = vs
         out.append(c)
-    sem_ops = ["minimize"] * 3 + ["simplify"] * 5 + ["factorize"] * 3 + ["simplify_factorize"] * 3
+    sem_ops = ["minimize"] * 6 + ["simplify"] * 10 + ["factorize"] * 6 + ["simplify_factorize"] * 6 + ["sem_values"]
     for _ in range(n_sem):
         op = rng.choice(sem_ops)
         malformed = op == "simplify" and rng.random() < 0.1
         g = _scm_graph(rng, 5 if quick else 6)
         nodes = G.all_nodes(g)
-        c = {"op": op, "g": g, "seed": rng.randrange(1 << 30), "models": models, "malformed": malformed}
+        c = {"op": op, "g": g, "seed": rng.randrange(1 << 30), "models": 1 if op == "sem_values" else models,
+             "malformed": malformed}
         if op == "minimize":
             c["v"] = rand_var(rng, g, nodes, star_plain=0.95, p_both=0.0)
             if not c["v"][4]:
@@ -418,6 +582,44 @@ def _call(case):
         elif op == "factorize":
             expr, ev = api.do_counterfactual_factor_factorization(variables=_dec_event(case["e"]), graph=graph)
             out = ["ok", _enc_factorisation(expr, ev)]
+        elif op == "cond_in_ancestral_set":
+            r = au._get_conditioned_variables_in_ancestral_set(
+                conditioned_variables={dec_var(v) for v in case["cond"]},
+                ancestral_set_root_variable=dec_var(case["v"]), graph=graph)
+            out = ["ok", C.as_set([str(G.name_to_int(v.name)) for v in r])]
+            if not all(type(v) is Variable and v.star is None for v in r):
+                wf = "_get_conditioned_variables_in_ancestral_set returned something that is not a graph vertex"
+        elif op == "ancestral_set_after":
+            r = au._get_ancestral_set_after_intervening_on_conditioned_variables(
+                conditioned_variables={dec_var(v) for v in case["cond"]},
+                ancestral_set_root_variable=dec_var(case["v"]), graph=graph)
+            out = ["ok", C.as_set([_enc_var(v) for v in r])]
+        elif op == "merge_common":
+            sets = {frozenset(dec_var(v) for v in s) for s in case["sets"]}
+            r = au._merge_frozen_sets_with_common_vertices(sets)
+            out = ["ok", C.as_set([C.as_set([_enc_var(v) for v in s]) for s in r])]
+        elif op == "merge_bidirected":
+            sets = {frozenset(dec_var(v) for v in s) for s in case["sets"]}
+            r = au._merge_frozen_sets_linked_by_bidirectional_edges(input_sets=sets, graph=graph)
+            out = ["ok", C.as_set([C.as_set([_enc_var(v) for v in s]) for s in r])]
+            if not _disjoint_bases(case["sets"]) or any(not s for s in case["sets"]):
+                out = ["ok", "unspecified"]   # only reached with non-empty sets that are disjoint on graph vertices
+        elif op == "sem_values":
+            # SPEC cross-check: P(query) and the value of the returned sum-product, Python oracle vs Lean specification
+            expr, ev = api.do_counterfactual_factor_factorization(variables=_dec_event(case["e"]), graph=graph)
+            fact = _enc_factorisation(expr, ev)
+            if not _sem_eligible(case) or fact[0] != "fact":
+                out = ["ok", "skip"]
+            else:
+                m, nu = _models(case, case["g"])[0]
+                q = case["e"]
+                out = ["ok", [_frac(F.prob_event(m, q, nu)),
+                              _frac(F.eval_factorised(m, nu, [r[1] for r in fact[1]], fact[2], fact[3]))]]
+        elif op == "factorize_classes":
+            # no y0 code involved: the Python key functions of the known findings vs the Lean predicates of the theorem
+            cs = _factorise_causes(case["g"], case["e"])
+            out = ["ok", [("true" if c in cs else "false") for c in ("multi-world", "literal-bound", "outcome-parent-value")]
+                   + ["true" if _readable_query(case["e"]) else "false"]]
         elif op == "simplify_factorize":
             r = api.simplify(event=_dec_event(case["e"]), graph=graph)
             if r is None:
@@ -448,6 +650,17 @@ def _t(x):
 
 def _sets(xss):
     return C.as_set([C.as_set([_t(v) for v in s]) for s in xss])
+
+
+def _disjoint_bases(sets):
+    """distinct input sets share no graph vertex (the invariant under which the second merge pass is reached)"""
+    seen = {}
+    for s in sets:
+        key = frozenset(S.vkey(v) for v in s)
+        for n in {S.name(v) for v in s}:
+            if seen.setdefault(n, key) != key:
+                return False
+    return True
 
 
 def _var_ok(g, v, allow_star=True):
@@ -506,27 +719,62 @@ def _check_factor_value(case, g, q, fact, label):
 
 
 def _factorise_causes(g, q):
-    """syntactic reasons why y0's two-symbol representation cannot express the factorisation of this query (used only
-    to group known findings; the verdict itself always comes from exact evaluation)"""
+    """the three syntactic query classes on which y0's two-symbol representation cannot express the factorisation
+    (Lean: Y0.Ctf.multiWorld / literalBound / outcomeParentValue, cross-checked by the op `factorize_classes`; theorem
+    factorisation_den_partial: outside these classes the value IS P(query)).  Used to group known findings; the verdict
+    itself always comes from exact evaluation."""
     causes = set()
     D = {}
     for v, _ in q:
         for a in S.ctf_ancestors(g, v):
-            D.setdefault(S.name(a), set()).add(S.vkey(a))
+            D.setdefault(S.name(a), {})[S.vkey(a)] = a
     if any(len(s) > 1 for s in D.values()):
         causes.add("multi-world")        # one vertex occurs as two different counterfactual variables in An(Y_*)
     outcome = {}
     for v, x in q:
-        outcome.setdefault(S.name(v), set()).add("n" if x == "n" else x[1])
-    lit = {a for v, _ in q for a, _ in S.ivs(v)}
+        outcome.setdefault(S.name(v), set()).add("n" if x == "n" else ("m" if x == [S.name(v), "m"] else "p"))
+    lit = {a for v, _ in q for a, st in S.ivs(v) if st == "m"}     # a starred subscript +X cannot be captured
     bases = set(D)
     for w in bases:
-        for p in S.parents(g, w) & bases:
-            if p in outcome and outcome[p] != {"m"}:
-                causes.add("outcome-parent-value")   # the added subscript -P is literal but P's event value is +P / None
+        for a in D[w].values():
+            own = {x for x, _ in S.ivs(a)}
+            for p in (S.parents(g, w) & bases) - own:
+                if p in outcome and outcome[p] != {"m"}:
+                    causes.add("outcome-parent-value")   # the ADDED subscript -P is literal but P's event value is +P / None
     if lit & (bases - set(outcome)):
         causes.add("literal-bound")       # a literal subscript of the query is captured by the summation index
     return sorted(causes)
+
+
+def _sem_eligible(case):
+    """queries on which both specifications (Lean Spec/CtfSem.lean, Python oracles/ctf_fscm.py) are defined"""
+    g, q = case["g"], case["e"]
+    return bool(q) and all(_var_ok(g, v) for v, _ in q) and F.readable_event(g, q) and _readable_query(q) \
+        and len(g["bi"]) <= 4 and S.is_acyclic(g)
+
+
+def _frac(x):
+    return [str(x.numerator), str(x.denominator)]
+
+
+def _model_sexp(m, nu):
+    mechs = []
+    for v in m.nodes:
+        rows = [[list(k), val_] for k, val_ in sorted(m.f[v].items())]
+        mechs.append([v, list(m.pa[v]), list(m.lat_of[v]), rows])
+    model = ["model", list(m.order), [list(w) for w in m.weights], mechs]
+    nus = [[v, nu[v][0], nu[v][1]] for v in m.nodes]
+    card = [[v, m.card[v]] for v in m.nodes]
+    return model, nus, card
+
+
+def _readable_query(q):
+    """Lean: Y0.Ctf.readableQuery — no variable intervenes on itself or twice on one name"""
+    for v, _ in q:
+        names = [a for a, _ in S.ivs(v)]
+        if S.name(v) in names or len(names) != len(set(names)):
+            return False
+    return True
 
 
 def _oracle(case, out, exc, wf):
@@ -610,6 +858,31 @@ def _oracle(case, out, exc, wf):
             return f"get_ancestral_components raised {exc} on counterfactual variables over V(G)"
         exp = _sets(S.ancestral_components(g, case["cond"], case["roots"]))
         return None if out[1] == exp else f"ancestral components {out[1]} differ from Def. 4.2: {exp}"
+    if op in ("cond_in_ancestral_set", "ancestral_set_after"):
+        vs = case["cond"] + [case["v"]]
+        if not all(_var_ok(g, v, allow_star=False) for v in vs):
+            return None
+        fn = "_get_conditioned_variables_in_ancestral_set" if op == "cond_in_ancestral_set" else \
+            "_get_ancestral_set_after_intervening_on_conditioned_variables"
+        if out[0] == "err":
+            return f"{fn} raised {exc} on counterfactual variables over V(G)"
+        if op == "cond_in_ancestral_set":
+            exp = C.as_set([str(n) for n in S.cond_in_ancestral_set(g, case["cond"], case["v"])])
+            return None if out[1] == exp else f"{fn}: {out[1]} differs from V(||X*|| ∩ An(W_t)) = {exp}"
+        exp = C.as_set([_t(a) for a in S.ancestral_set_after(g, case["cond"], case["v"])])
+        return None if out[1] == exp else f"{fn}: {out[1]} differs from An(W_t) in G with the edges out of X*(W_t) removed: {exp}"
+    if op in ("merge_common", "merge_bidirected"):
+        if not all(S.in_graph(g, v) for s in case["sets"] for v in s):
+            return None
+        if out[0] == "err":
+            return f"_merge_frozen_sets ({op}) raised {exc}"
+        if op == "merge_common":
+            exp = _sets(S.merge_common(case["sets"]))
+            return None if out[1] == exp else f"first merge pass {out[1]} differs from the finest partition closed under overlap: {exp}"
+        if not _disjoint_bases(case["sets"]) or any(not s for s in case["sets"]):
+            return None   # the second pass is only specified for non-empty sets that are disjoint on graph vertices
+        exp = _sets(S.merge_bidirected(g, case["sets"]))
+        return None if out[1] == exp else f"second merge pass {out[1]} differs from the finest partition closed under bidirected adjacency: {exp}"
     if op in ("is_factor_form", "factors", "factors_values"):
         vs = case["vs"] if "vs" in case else [v for v, _ in case["e"]]
         if not all(S.in_graph(g, v) for v in vs):
@@ -667,6 +940,10 @@ def _oracle(case, out, exc, wf):
         r = [[[v[0], int(v[1]), v[2], v[3], [[int(a), s] for a, s in v[4]]], x if x == "n" else [int(x[0]), x[1]]]
              for v, x in out[1][1]]
         # compare with the probability of the SIMPLIFIED event (the simplify stream judges simplify itself)
+        if r and all(_var_ok(g, v) for v, _ in r):
+            exp = _expected_factorisation(g, r)
+            if out[1][2] != exp:
+                return f"SIMPLIFY then factorisation: {out[1][2]} differs in shape from Eq. 11-15 for the simplified event: {exp}"
         return _check_factor_value(case, g, r, out[1][2], "SIMPLIFY then factorisation")
     return None
 
@@ -710,10 +987,18 @@ def request(case):
     g = _g(case)
     if op in ("minimize", "ancestors"):
         return C.enc(["ctf", op, g, case["v"]])
-    if op in ("minimize_event", "simplify", "factors_values", "convert", "factorize", "simplify_factorize"):
+    if op in ("minimize_event", "simplify", "factors_values", "convert", "factorize", "simplify_factorize", "factorize_classes"):
         return C.enc(["ctf", op, g, case["e"]])
-    if op == "components_from_sets":
+    if op in ("components_from_sets", "merge_common", "merge_bidirected"):
         return C.enc(["ctf", op, g, case["sets"]])
+    if op in ("cond_in_ancestral_set", "ancestral_set_after"):
+        return C.enc(["ctf", op, g, case["cond"], case["v"]])
+    if op == "sem_values":
+        if not _sem_eligible(case):
+            return C.enc(["ctf", "factorize", g, case["e"]])
+        m, nu = _models(case, case["g"])[0]
+        model, nus, card = _model_sexp(m, nu)
+        return C.enc(["ctf", op, g, case["e"], model, nus, card])
     if op == "ancestral_components":
         return C.enc(["ctf", op, g, case["cond"], case["roots"]])
     if op in ("is_factor_form", "factors"):
@@ -745,14 +1030,26 @@ def canon_model(case, rep):
         return ["ok", _bag([list(it) for it in body])]
     if op == "simplify":
         return ["ok", "none"] if body == "none" else ["ok", ["some", C.as_set([list(it) for it in body[1]])]]
-    if op == "ancestors":
+    if op in ("ancestors", "ancestral_set_after"):
         return ["ok", C.as_set(list(body))]
+    if op == "cond_in_ancestral_set":
+        return ["ok", C.as_set([str(x) for x in body])]
+    if op == "merge_bidirected" and (not _disjoint_bases(case["sets"]) or any(not s for s in case["sets"])):
+        return ["ok", "unspecified"]
+    if op in ("merge_common", "merge_bidirected"):
+        return ["ok", C.as_set([C.as_set(list(s)) for s in body])]
     if op in ("components_from_sets", "ancestral_components", "factors"):
         return ["ok", C.as_set([C.as_set(list(s)) for s in body])]
     if op == "factors_values":
         return ["ok", C.as_set([C.as_set([list(it) for it in s]) for s in body])]
     if op == "is_factor_form":
         return ["ok", "false-or-err" if body == "false" and _outside(case) else body]
+    if op == "sem_values":
+        if not _sem_eligible(case) or len(body) != 2 or not all(isinstance(x, list) and len(x) == 2 and isinstance(x[0], str) for x in body):
+            return ["ok", "skip"]
+        return ["ok", [list(body[0]), list(body[1])]]
+    if op == "factorize_classes":
+        return ["ok", list(body)]
     if op == "factorize":
         return ["ok", _m_fact(body)]
     if op == "simplify_factorize":
@@ -818,6 +1115,65 @@ def shrink(case):
             yield c
 
 
+def _self_star(v):
+    """star of the subscript by which v intervenes on itself: "m" / "p", None when not reflexive, "both" when ill-formed"""
+    own = [st for a, st in S.ivs(v) if a == S.name(v)]
+    return None if not own else (own[0] if len(own) == 1 else "both")
+
+
+def _reflexive_cause(g, e, kind):
+    """SYNTACTIC cause of the two known SIMPLIFY findings (y0 reads the tautology Y_y = y as the event Y = y):
+      prob: the event has a consistent self-intervened item (Y_{..y..}, y);
+      none: it has one, and a second item on the same vertex -- a variable that minimises to the plain Y, or another
+            consistent self-intervened item -- with the OTHER value of Y."""
+    cons = [(S.name(v), x[1]) for v, x in e if x != "n" and _self_star(v) in ("m", "p") and x[1] == _self_star(v)]
+    if not cons:
+        return False
+    if kind == "prob":
+        return True
+    for v, x in e:
+        if x == "n":
+            continue
+        st = _self_star(v)
+        plain_after_min = st is None and not S.minimise(g, v)[4]
+        if (plain_after_min or (st in ("m", "p") and x[1] == st)) and any(n == S.name(v) and s != x[1] for n, s in cons):
+            return True
+    return False
+
+
+def _explained_by_reflexive_rewrite(case, out, kind):
+    """the failure is EXACTLY the known one: replacing every consistent item (Y_{..y..}, y) of the input by (Y, y) gives
+    an event whose probability is the one SIMPLIFY's answer has (kind prob) / is 0 (kind none), in every sampled model.
+    Anything else on an event with a self-intervened variable is a new failing input."""
+    g, e = case["g"], case["e"]
+    if not F.readable_event(g, e):
+        return False
+    e2, zero = [], False
+    for v, x in e:
+        st = _self_star(v)
+        if st is None or x == "n":
+            e2.append([v, x])
+        elif st in ("m", "p") and x[1] == st:
+            e2.append([V(S.name(v)), x])
+        else:
+            zero = True          # Y_y = y' has probability 0 under either reading
+    r = None
+    if kind == "prob":
+        if out[0] != "ok" or out[1] == "none":
+            return False
+        r = [[[v[0], int(v[1]), v[2], v[3], [[int(a), s] for a, s in v[4]]], x if x == "n" else [int(x[0]), x[1]]]
+             for v, x in out[1][1]]
+        if not F.readable_event(g, r):
+            return False
+    for m, nu in _models(case, g):
+        p2 = 0 if zero else F.prob_event(m, e2, nu)
+        if kind == "none" and p2 != 0:
+            return False
+        if kind == "prob" and p2 != F.prob_event(m, r, nu):
+            return False
+    return True
+
+
 def finding_key(case, res):
     """known findings of the semantic clauses are grouped by a syntactic cause computed from the input alone;
     everything else is keyed by the full input"""
@@ -835,35 +1191,43 @@ def finding_key(case, res):
             if c in causes:
                 return "factorisation-value:" + c
     if op == "simplify" and ("simplify changed the probability" in fail or "simplify answered None" in fail):
-        e = case["e"]
-        if any(S.name(v) in [a for a, _ in S.ivs(v)] for v, _ in e):
-            kind = "none" if "answered None" in fail else "prob"
+        kind = "none" if "answered None" in fail else "prob"
+        if _reflexive_cause(g, case["e"], kind) and _explained_by_reflexive_rewrite(case, res["out"], kind):
             return "simplify-reflexive:" + kind
     c = {k: case[k] for k in ("op", "g", "v", "e", "vs", "sets", "roots", "cond") if k in case}
     return json.dumps(c, sort_keys=True)
 
 
 MANIFEST = {
-    "text": ("Partial proof. 27 Lean theorems about executable models of ancestor_utils.py / api.py, tied to the code on every run "
+    "text": ("Partial proof. 44 Lean theorems about executable models of ancestor_utils.py / api.py, tied to the code on every run "
              "by differential correspondence (0 disagreements): minimisation is total on graph variables (F8a fixed), well formed, "
              "equal to the published ||Y_x||, idempotent, and the SAME RANDOM VARIABLE in every compatible functional SCM, for "
              "every reading of the value symbols, at every noise point (minimize_same_rv); counterfactual ancestors are exactly "
-             "Def. 2.1 (sound, complete, total); ancestral components are exactly the finest partition of Def. 4.2 (F8b fixed; "
-             "ancestral_components_spec); ctf-factor form / conversion meet Def. 3.4; the factorisation has the shape of "
-             "Eq. 11-15 (factorisation_shape). SIMPLIFY preserves probability and answers None only for probability 0: proved "
-             "for all events WITHOUT a self-intervened variable (simplify_prob_partial, simplify_none_zero_partial); the full "
-             "statement is false for the code (SIMPLIFY rewrites the tautology Y_y=y to Y=y) - open finding, pinned by the "
-             "test-suite. The value clause 'factorised sum-product = P(query)' has NO theorem: it is decided by the exact "
-             "functional-SCM oracle and is false on three syntactic classes of queries (multi-world, captured literal "
-             "subscript, outcome parent with value +P/None) - open findings keyed by class with minimal inputs."),
+             "Def. 2.1 (sound, complete, total); Def. 4.2 in full: each merge pass separately (merge_common_spec, "
+             "merge_bidirected_spec; F8b fixed), the conditioned variables X*(W_t) (cond_in_ancestral_set_spec), and "
+             "get_ancestral_components as a whole (ancestral_components_full: per root An(W_t) in the graph without the edges "
+             "out of X*(W_t), then the finest partition); ctf-factor form / conversion meet Def. 3.4; the factorisation has the "
+             "shape of Eq. 11-15 (factorisation_shape) and its VALUE is P(query) for every query outside three decidable "
+             "syntactic classes (factorisation_den_partial: composition + exclusion restriction along the evaluation order, "
+             "independence of the noise blocks of different c-components, marginalisation - all mechanised). On the three "
+             "classes (multi-world, captured literal subscript, added parent subscript of an outcome with value +P/None) the "
+             "statement is false for the code - open findings keyed by class with minimal inputs; the Lean class predicates are "
+             "cross-checked against the Python key functions on every run. SIMPLIFY preserves probability and answers None only "
+             "for probability 0: proved for all events WITHOUT a self-intervened variable (simplify_prob_partial, "
+             "simplify_none_zero_partial); the full statement is false for the code (SIMPLIFY reads the tautology Y_y=y as Y=y; "
+             "the paper removes it) - open finding, pinned by the test-suite, keyed by syntactic cause + outcome kind + exact "
+             "explanation by the rewrite, so that any other failure on such events is a violation; and relative to that "
+             "reading SIMPLIFY is proved right on ALL events (simplify_prob_y0reading, simplify_none_zero_y0reading), i.e. "
+             "the reading is the whole deviation."),
     "note": ("Trusted: Lean kernel; axioms propext/Classical.choice/Quot.sound; the hand-written models; the specifications "
-             "Spec/CtfSpec.lean, Spec/CtfSem.lean and Spec/Fscm.lean (functional SCMs with shared noise, owned by the cf "
-             "family); the correspondence is differential sampling (about 58 000 structured cases per quick run), not proof. "
-             "Readings fixed by the specification: '-N'/'+N' are two distinct values of N; Def. 2.1 without removing Y itself; "
+             "Spec/CtfSpec.lean, Spec/CtfSem.lean (what an event and the returned sum-product denote) and Spec/Fscm.lean "
+             "(functional SCMs with shared noise, owned by the cf family); the correspondence is differential sampling (about "
+             "45 000 cases per quick run, 4 000 of them structured), not proof. "
+             "Readings fixed by the specification: '-N'/'+N' are two values of N; Def. 2.1 without removing Y itself; "
              "Def. 4.2 'not disjoint' on graph vertices; a '-N' subscript bound by the enclosing Sum denotes the bound value. "
              "Known findings of the semantic clauses are grouped by a syntactic cause computed from the input; a failing input "
              "outside the listed causes is reported as a VIOLATION."),
     "technique": ("Lean 4 theorems (closure = ReflTransGen, connected components of link graphs, induction along the SCM "
-                  "evaluation order, dictionary invariants) about executable models + differential correspondence with the "
-                  "real functions + set-theoretic and exact functional-SCM oracles"),
+                  "evaluation order, product structure of the noise space, dictionary invariants) about executable models + "
+                  "differential correspondence with the real functions + set-theoretic and exact functional-SCM oracles"),
 }
